@@ -79,4 +79,9 @@ CHECKS = {
         thorough=dict(groups=[E("exhaustive", "^TestC18Exhaustive$", 16, env=dict(VERIF_C18_MAXLEN=6)), E("ipv4-product", "^TestC18IPv4Product$", 16),
                               G("structured", "^TestC18Structured$", 5000, 16)]),
     ),
+    "C10": dict(
+        title="NNS ownership lifecycle and NEP-11 accounting stay consistent over time",
+        quick=dict(groups=[G("stateful", "^TestC10Stateful$", 250, 8)]),
+        thorough=dict(groups=[G("stateful", "^TestC10Stateful$", 4000, 16)]),
+    ),
 }
